@@ -784,7 +784,7 @@ func (c *CharSet) addNamedASCII(name string, negate bool) bool {
 	case "cntrl":
 		rs = []SingleRange{{0, 0x1f}, {0x7f, 0x7f}}
 	case "digit":
-		c.addDigit(false, negate)
+		rs = []SingleRange{{'0', '9'}}
 	case "graph":
 		rs = []SingleRange{{'!', '~'}}
 	case "lower":
